@@ -8,7 +8,7 @@ Streams of C12.
               A bare directive name is its default one-line spelling: limits request_id log rewrite gzip
               header errors:<plain|page404|visible> status mime internal templates.
               `name=<line>|<line>…` gives the lines of a directive as written, in order:
-                log=<scope|->~<out>~<fmt|->[~x]   header=<scope>~<i|d|b|p>   gzip=<not-path|->~<level|->
+                log=<scope|->~<out>~<fmt|->[~x]   header=<scope>~<i|d|b|p>   gzip=<not-path|->~<level|->[~<min_length|->]
                 errors=<-|v|logname>~<-|404>      templates=<path|->~<ext>~<form>
               addr2a addr2b decoyF decoyL: layout of the Casketfile (two addresses, a second site) — no meaning.
               The model computes the MEANING of the lines for the request path (`Site.cfg`).
@@ -17,7 +17,7 @@ Streams of C12.
       inner = ret:<s>:<0|1>[:<n>] | panic[:<n>]  (n informational 1xx headers first) | write:<s|->:<hex>:<0|1>:<kind>:<cl 0|1>:<mode> | file:<kind>:<hex>
               | panic | panicafter:<s|->:<hex>
               kind = plain | tok | tparse | texec  (what text/template makes of the body)
-              mode = w | c | s | wf | fw | nw | i<mode> (a 103 Early Hints first)  (Write, io.Copy, io.WriteString, Write+Flush, Flush+Write, optional-interface
+              mode = w | c | s | wf | fw | nw | i<mode> (a 103 Early Hints first) | e<mode> (Content-Encoding: x-c12 set first: gzip must leave the response alone)  (Write, io.Copy, io.WriteString, Write+Flush, Flush+Write, optional-interface
                      assertions + CloseNotify + Push then Write: all a write for the model)
               file: the request goes to the real static file server (Content-Length, ETag …), returns (200, nil)
       out   = <commits> <status> <cl> <body> <followup>
@@ -54,7 +54,8 @@ def parseHeaderLine (l : String) : Option HeaderLine :=
 
 def parseGzipLine (l : String) : Option GzipLine :=
   match l.splitOn "~" with
-  | [np, lv] => some ⟨(optField np).toList, (optField lv).bind String.toNat?⟩
+  | [np, lv] => some ⟨(optField np).toList, (optField lv).bind String.toNat?, none⟩
+  | [np, lv, ml] => some ⟨(optField np).toList, (optField lv).bind String.toNat?, (optField ml).bind String.toNat?⟩
   | _ => none
 
 def parseErrLine (l : String) : Option ErrLine :=
@@ -81,7 +82,7 @@ def addToken (s : Site) (tok : String) : Option Site :=
   match tok.splitOn "=" with
   | [name] =>
     if name = "log" then (if s.log.isEmpty then some { s with log := [⟨some "/", "a", none⟩] } else none)
-    else if name = "gzip" then (if s.gzip.isEmpty then some { s with gzip := [⟨[], none⟩] } else none)
+    else if name = "gzip" then (if s.gzip.isEmpty then some { s with gzip := [⟨[], none, none⟩] } else none)
     else if name = "header" then (if s.header.isEmpty then some { s with header := [⟨"/", 2⟩] } else none)
     else if name = "templates" then (if s.templates.isEmpty then some { s with templates := [⟨"/"⟩] } else none)
     else if name.startsWith "errors:" then
@@ -119,7 +120,25 @@ def parseKind : String → Option BodyKind
   | _ => none
 
 /-- number of informational headers the probe sends first: the leading i's of the mode -/
-def modeInfos (mode : String) : Nat := (mode.toList.takeWhile (· == 'i')).length
+def modeInfos (mode : String) : Nat := ((mode.toList.dropWhile (· == 'e')).takeWhile (· == 'i')).length
+
+/-- a leading `e` of the mode: the handler sets a Content-Encoding of its own first -/
+def modeCE (i : String) : Bool :=
+  match i.splitOn ":" with
+  | ["write", _, _, _, _, _, mode] => mode.startsWith "e"
+  | _ => false
+
+/-- the text/template output of the stream's templates: every `{{.Method}}` (11 bytes) becomes `GET` -/
+def renderedLen (b : List UInt8) : Nat :=
+  let pat : List UInt8 := "{{.Method}}".toUTF8.toList
+  b.length - 8 * ((List.range b.length).countP fun k => pat.isPrefixOf (b.drop k))
+
+/-- the number a Content-Length set from a chunk parses to (only the handler's and the rendered
+body ever get one) -/
+def chunkLen : Chunk → Nat
+  | .inner b => b.length
+  | .rendered b => renderedLen b
+  | _ => 0
 
 def parseInner (s : String) : Option (Nat × Inner) :=
   match s.splitOn ":" with
@@ -138,7 +157,22 @@ structure Case where
   path : String      -- the request path
   req : Req
   infos : Nat        -- informational headers the innermost handler sends first
+  ce : Bool := false -- the handler sets a Content-Encoding of its own
+  headLen : Option Nat := none  -- HEAD for a file: the Content-Length the file server sets (nothing is written)
   inner : Inner      -- what the innermost handler does for this request
+
+/-- what gzip's response filters read off the response header -/
+def Case.facts (c : Case) : RespFacts :=
+  { len := fun ch => match c.headLen, ch with
+      | some n, .inner [] =>
+        -- the model's stand-in for the file's length on HEAD; `templates` renders the empty
+        -- body the file server produced and sets Content-Length: 0
+        if (c.site.cfg c.path).templates && c.req.html then 0 else n
+      | _, _ => chunkLen ch,
+    ce := c.ce }
+
+/-- the model's answer: the site as written, with the response filters of its gzip configs -/
+def Case.resp (c : Case) : Resp := siteServeWireF c.facts c.site c.path c.req c.infos c.inner
 
 /-- the meaning of the site for this request -/
 def Case.cfg (c : Case) : Cfg := c.site.cfg c.path
@@ -159,7 +193,9 @@ def parseCaseL (loaded : Bool) : List String → Option Case
     let mi := if head && i.startsWith "file:" then Inner.write (some 200) [] false .plain true else gi
     pure { site := ← parseSite loaded st, path := casePath p i,
            req := { html := p.startsWith "html", ae := ae == "1", head := head },
-           infos := n, inner := mi }
+           infos := n, inner := mi, ce := modeCE i,
+           headLen := if head && i.startsWith "file:" then
+               (match gi with | .write _ b _ _ _ => some b.length | _ => none) else none }
   | _ => none
 
 def parseCase : List String → Option Case := parseCaseL true
@@ -215,7 +251,7 @@ def parseBody (s : String) : Option (List (Chunk × Bool)) :=
 def serveModel (f : List String) : String :=
   match parseCase f with
   | none => "bad-case"
-  | some c => showResp c.req.head (siteServeWire c.site c.path c.req c.infos c.inner) ++ " ok"
+  | some c => showResp c.req.head c.resp ++ " ok"
 
 def serveJudge (f : List String) (out : String) : String :=
   if out.startsWith "PANIC:" then "bad:not-contained:a panic escaped Server.ServeHTTP"
@@ -242,7 +278,7 @@ def liveModel (f : List String) : String :=
   match parseCase f with
   | none => "bad-case"
   | some c =>
-    let r := siteServeWire c.site c.path c.req c.infos c.inner
+    let r := c.resp
     let clok := clOK r || bodiless c.req.head r.status
     s!"{if r.status = 0 then 200 else r.status} {if clok then "ok" else "!"} {showBody r.body} ok ok"
 
@@ -273,7 +309,7 @@ def noInject (f : List String) : Option Case := parseCaseL false f
 def chainModel (f : List String) : String :=
   match noInject f with
   | none => "bad-case"
-  | some c => showResp c.req.head (siteServeWire c.site c.path c.req c.infos c.inner) ++ " ok"
+  | some c => showResp c.req.head c.resp ++ " ok"
 
 def chainJudge (f : List String) (out : String) : String :=
   if out.startsWith "PANIC:" then "bad:not-contained:a panic escaped Server.ServeHTTP"
